@@ -89,7 +89,11 @@ def r1(ctx, facts):
 def r2(ctx, facts):
     r = ctx.rule("R2", "every page request carries the current cursor; the first carries none", floor=4)
     # session pager: the adapter closure inside fetch_one_page
-    cands = facts.find(r"^scylla::client::pager::PagingExecutor::fetch_one_page::\{closure#0\}::\{closure#0\}::\{closure#0\}$")
+    # found by its role, not by its closure number: the coroutine inside fetch_one_page that invokes the caller's page_query
+    from ..util import closure_family as _cf
+    top_ = facts.one(r"^scylla::client::pager::PagingExecutor::fetch_one_page::\{closure#0\}$")
+    cands = [x for x in _cf(facts, top_) if x.is_coroutine and x.path != top_.path and
+             [c for bb, c in x.calls() if bb in x.live_blocks and c.decl == "core::ops::function::Fn::call" and "res" not in c.callee]]
     if len(cands) != 1:
         raise AnchorLost("PagingExecutor::fetch_one_page adapter coroutine not found (%d)" % len(cands))
     b = cands[0]
@@ -438,9 +442,38 @@ def r9(ctx, facts):
                "ResponseHandlerMap::lookup must release the stream id of EVERY response it is shown (orphaned or not): the release is the only one there is", fr[0].span if fr else lb.span)
 
 
+def r10(ctx, facts):
+    r = ctx.rule("R10", "every page fetch gets the request's full timeout again: a slow consumer or a long scan cannot use up a budget that started with the first page", floor=1)
+    from ..util import field_slice, closure_family
+    top = facts.one(r"^scylla::client::pager::PagingExecutor::fetch_one_page::\{closure#0\}$")
+    n = 0
+    for bb in sorted(top.live_blocks):
+        for st in top.stmts(bb):
+            if st[0] == "A" and st[2][0] == "agg" and st[2][1][0] == "adt" and st[2][1][1].endswith("RequestExecutionParams") and "request_timeout" in (st[2][1][4] or []):
+                n += 1
+                op = st[2][2][st[2][1][4].index("request_timeout")]
+                seen, cs, bins = field_slice(top, op)
+                nms = {(c.decl or c.name or "").split("::")[-1] for c in cs}
+                # closures handed to adapters on the way (`.map(|deadline| deadline - now)`) are part of the computation
+                for l_, _w in seen:
+                    for d_ in top.defs.get(l_, []):
+                        if d_[0] == "stmt" and d_[3][0] == "agg" and d_[3][1][0] == "closure":
+                            cb_ = facts.body(d_[3][1][1])
+                            for fb in (closure_family(facts, cb_) if cb_ is not None else []):
+                                nms |= {(c.decl or c.name or "").split("::")[-1] for bb_, c in fb.calls() if bb_ in fb.live_blocks}
+                                bins = list(bins) + [st_[2] for bb_ in fb.live_blocks for st_ in fb.stmts(bb_) if st_[0] == "A" and st_[2][0] == "bin" and st_[2][1] in ("Sub", "SubWithOverflow", "Add", "AddWithOverflow")]
+                nms = sorted(nms)
+                clock = [x for x in nms if x in ("now", "saturating_duration_since", "duration_since", "elapsed", "checked_duration_since", "checked_sub", "saturating_sub")]
+                r.instance("page-timeout-is-the-request-timeout", not clock and not bins,
+                           "the timeout handed to the execution core for ONE page is computed from a clock / a deadline (%s): the budget is then shared by all pages of the stream, and once it is used up "
+                           "every later page fetch times out at once - the rest of the rows is lost although nothing failed" % (clock or [x[1] for x in bins]), top.stmt_span(st))
+    if n == 0:
+        raise AnchorLost("fetch_one_page: no RequestExecutionParams with a request_timeout found")
+
+
 def check(ctx):
     facts = inline_view(ctx.facts("default"))
-    for fn in (r1, r2, r3, r4, r5, r6, r7, r8, r9):
+    for fn in (r1, r2, r3, r4, r5, r6, r7, r8, r9, r10):
         try:
             fn(ctx, facts)
         except AnchorLost as ex:
